@@ -492,6 +492,65 @@ def stacked_stage(rep, rs, tier):
     rep.cov["stacked_flows_in_base"] = ndone
 
 
+def replaced_params_stage(rep, rs, tier, cfgs):
+    """histories on ONE model object: evaluation mode, queried (with and without autograd), then its parameters are replaced
+    (load_state_dict / in-place copy / an optimiser step) WITHOUT a further .eval()/.train() call, then the whole direct oracle
+    runs again: the property speaks of the parameter values the model holds now.  Also compared with a fresh twin that is given
+    the same state dict."""
+    import torch, copy as _copy
+    nbad = 0; ndone = 0; kinds = {}
+    pick = [c for i, c in enumerate(cfgs) if i % (3 if tier == "quick" else 2) == 0]
+    for hi, cfg in enumerate(pick):
+        shp = in_shape(cfg); B = 2
+        def batch():
+            if cfg["logit"] is not None:
+                return torch.tensor(rs.uniform(0.03, 0.97, size=(B,) + shp), dtype=torch.float64)
+            return torch.tensor(rs.normal(0, 1.0, size=(B,) + shp), dtype=torch.float64)
+        try:
+            model = build(cfg); randomize(model, rs)
+            donor = build(cfg); randomize(donor, rs)
+            x, x2 = batch(), batch()
+            with torch.no_grad():
+                model(x); model.sample(3)
+                model.apply_forward(model.apply_backward(model.preprocess(x2)[0])[0])
+            model(x)
+            how = ["load_state_dict", "in-place copy", "optimiser step"][hi % 3]
+            if how == "load_state_dict":
+                model.load_state_dict(_copy.deepcopy(donor.state_dict()))
+            elif how == "in-place copy":
+                with torch.no_grad():
+                    for (_, a), (_, b) in zip(model.named_parameters(), donor.named_parameters()):
+                        a.copy_(b)
+                    for (_, a), (_, b) in zip(model.named_buffers(), donor.named_buffers()):
+                        a.copy_(b)
+            else:
+                opt = torch.optim.SGD([q for q in model.parameters() if q.requires_grad], lr=0.05)
+                opt.zero_grad(); (-model(x).mean()).backward()
+                gmax = max([float(q.grad.abs().max()) for q in model.parameters() if q.grad is not None] + [1e-12])
+                for q in model.parameters():        # a step of bounded size: no parameter moves by more than 0.05
+                    if q.grad is not None:
+                        q.grad.div_(gmax)
+                opt.step()
+            twin = build(cfg); twin.double(); twin.load_state_dict(_copy.deepcopy(model.state_dict())); twin.eval()
+            with torch.no_grad():
+                u = twin.apply_backward(twin.preprocess(x2)[0])[0].clone()
+                a = model(x).reshape(-1); b = twin(x).reshape(-1)
+            bad = None
+            if not float((a - b).abs().max()) <= 1e-7:
+                bad = dict(what="log_prob differs from a fresh model holding the same state dict", used=a.tolist(), fresh=b.tolist())
+            if bad is None:
+                bad = oracle(model, cfg, x, u)
+        except Exception as ex:
+            bad = dict(what="history raised", error=f"{type(ex).__name__}: {ex}")
+        ndone += 1; kinds[how] = kinds.get(how, 0) + 1
+        if bad:
+            nbad += 1
+            if nbad <= 3:
+                rep.violation(dict(kind="parameters-replaced-in-evaluation-mode", history=["eval()", "log_prob/sample/apply_* under no_grad", "log_prob", how, "oracle"],
+                                   config=cfg, failure=bad, x=x[0].reshape(-1).tolist()), True)
+    rep.cov["replaced_parameter_histories"] = dict(models=ndone, how=kinds)
+
+
 def main(tier, seed, replay=None):
     import torch
     torch.set_num_threads(1)
@@ -589,5 +648,6 @@ def main(tier, seed, replay=None):
                        "on one row in both directions, or one wiring/total identity); distinct by case hash; in addition the direct oracle "
                        "(autograd Jacobians, round trips) runs on every model")
     stacked_stage(rep, rs, tier)
+    replaced_params_stage(rep, rs, tier, cfgs)
     C.clean_gen(PID)
     return rep.finish("proof")
